@@ -127,7 +127,7 @@ def check_C16(ctx):
 LEVEL["C15"] = ("Decides the structural clause of C15 only: at every sendmsg-carrying call the number of descriptors is bounded by the constant that sizes "
                 "the receiver's control buffer (read from the receiving path, not hard-coded), separately for the single-packet and the fragmented "
                 "transmission (which adds one descriptor). Not decided: that the channel stays usable after a refusal; the kernel's own SCM_MAX_FD; "
-                "the in-process transport has no limit and no instance.")
+                "the in-process transport has no limit and no instance. Any callee that receives mutable access to the descriptor vector (a helper, Extend::extend) is assumed to grow it without bound unless known not to.")
 
 
 def check_C15(ctx):
@@ -140,7 +140,7 @@ def check_C15(ctx):
 LEVEL["C18"] = ("Decides three necessary conditions of C18, not 'no undefined behaviour': a nullable mapping pointer never reaches slice::from_raw_parts(_mut) "
                 "unguarded (NULL-GUARD); every Vec::set_len is justified by a capacity argument (SETLEN-CAP); malloc/free and mmap/munmap are paired on "
                 "every normal path or through an owning type's Drop (ALLOC-PAIR, ALLOC-DROP). Not decided: control-message parsing bounds against what "
-                "the kernel returns, uninitialised bytes, use-after-free through raw pointers -- everything AddressSanitizer would observe.")
+                "the kernel returns, uninitialised bytes, use-after-free through raw pointers -- everything AddressSanitizer would observe. ALLOC-PAIR also follows a block into the owning type it is moved into: releasing it again through that type's field is reported as a double release.")
 
 
 def check_C18(ctx):
@@ -163,7 +163,7 @@ def check_C18(ctx):
 LEVEL["C10"] = ("Decides the structural clause of C10 only: O_NONBLOCK set for a non-blocking receive is cleared again on every feasible path to return (NB-PAIR); "
                 "the three receive entry points of each layer call their own counterpart with the right mode and the caller's duration (MODE-TABLE); follow-up "
                 "fragments are read blocking (FOLLOWUP-BLOCKING); an expired poll yields EAGAIN and hence Empty, a ready poll goes on to read (TIMEOUT-ARM, ERR-MAP). "
-                "Not decided: elapsed time, early wake-up by the kernel, O_NONBLOCK shared with duplicates of the descriptor.")
+                "Not decided: elapsed time, early wake-up by the kernel, O_NONBLOCK shared with duplicates of the descriptor. Also (NB-MODE): at the recvmsg call the read is non-blocking exactly on the paths serving BlockingMode::Nonblocking, by O_NONBLOCK or by MSG_DONTWAIT, and blocking on the others.")
 
 
 def check_C10(ctx):
@@ -236,7 +236,7 @@ def strip(t):
 LEVEL["C12"] = ("Decides two receiver-side clauses of C12: a short, zero or failed follow-up read can never reach an Ok return and every Ok return follows a "
                 "received >= total edge (TRUNC-ERR); 'closed' may originate only from the channel's own descriptor (CLOSED-ORIGIN) -- today it also "
                 "originates from the per-message socket, recorded as a known finding. The sender side is FRAG-ROUTE + SEND-PEER-CLOSED + RAII, and every socket it creates is close-on-exec (CLOEXEC) so that a dead sender's children cannot keep the per-message socket open. Not decided: anything "
-                "about when the sending process dies, delivery of earlier messages, receiver liveness.")
+                "about when the sending process dies, delivery of earlier messages, receiver liveness. Also: after a read-type system call errno is consulted only on paths where the call returned a negative value (ERRNO-FRESH), so the end of an interrupted message is never classified through a stale errno.")
 
 
 def check_C12(ctx):
@@ -298,7 +298,7 @@ def _result_used(ctx, cfg, F):
 LEVEL["C13"] = ("Decides the loop-invariant clauses of C13 only: a transmission is re-attempted only for Errno(ENOBUFS) after a successful downsize (RETRY-GUARD); the byte position "
                 "advances only on success (RETRY-POS); the estimate only shrinks and Ok from downsize needs sent > threshold (RETRY-SHRINK); every (re)try of the first fragment "
                 "carries the whole descriptor list (RETRY-FDS) within the receiver's capacity (FD-BOUND); slices are contiguous (FRAG-CONTIG). Not decided: the 2^10 fault patterns "
-                "as executions; that smaller packets are accepted by the kernel.")
+                "as executions; that smaller packets are accepted by the kernel. Also: the receiver's first-packet buffer capacity depends only on constants and once-initialised statics (RECV-CAP-CONST), so a reduced estimate on the sending side can never shrink what the receiver offers.")
 
 
 def check_C13(ctx):
@@ -468,7 +468,7 @@ def check_C01(ctx):
 LEVEL["C05"] = ("Decides structural conditions necessary for C05, not byte contents: (pointer, length, store) of a region come from one map_file on the stored BackingStore and Clone "
                 "remaps a duplicated descriptor (SHM-COUPLE); one length feeds truncate, map, fill and the region (SHM-LEN); the compiled create_shmem variant truncates the "
                 "descriptor it returns (SHM-SIBLING, evaluated for shm_open and for memfd); empty-sentinel agreement (SHM-SENTINEL); mmap/munmap pairing (ALLOC-PAIR/DROP); in-process "
-                "coupling with the Arc (SHM-INPROC). Not decided: contents, page-straddling lengths, cross-process visibility (MAP_SHARED is the kernel's).")
+                "coupling with the Arc (SHM-INPROC). Not decided: contents, page-straddling lengths, cross-process visibility (MAP_SHARED is the kernel's). Also: the fill of from_byte covers exactly [0, length) of the mapping (contiguous segments adding up to the length); attachment lists share base 0 with the indices (IDX-BASE).")
 
 
 def check_C05(ctx):
@@ -552,7 +552,7 @@ def check_C20(ctx):
 LEVEL["C19"] = ("Decides the build- and surface-level clauses of C19 only: every Linux configuration type-checks against the shared layers (BUILD-ALL); the OS and in-process transports "
                 "export the same platform surface (SURFACE-PARITY); both satisfy the same error-class mapping (ERR-MAP, ZERO-READ / TIMEOUT-ARM / NB-PAIR on the OS side, ERR-CLASS-INPROC on the in-process side), mode table "
                 "(MODE-TABLE), id provenance (SET-ID), side-table discipline (TLS-RESTORE), index discipline (IDX-POS) and one-shot-server ownership and naming "
-                "(OSS-OWN, OSS-NAME), evaluated per backend and reported side by side. Not decided: result sequences of programs; the ideal-FIFO comparison.")
+                "(OSS-OWN, OSS-NAME), evaluated per backend and reported side by side. Not decided: result sequences of programs; the ideal-FIFO comparison. Also per backend: the receiver-set rules (SET-DRAIN etc. on the OS side, SET-INPROC in process) and the mode clause NB-MODE.")
 
 
 def check_C19(ctx):
